@@ -83,9 +83,57 @@ def probe (j : Json) : Except String Json := do
   pure (Json.mkObj [("names", Json.arr nameRes.toArray), ("gtypes", Json.arr gRes.toArray),
                     ("domains", Json.arr dRes.toArray), ("pack", packRes)])
 
+/-- a typelib of a history: `libOf` plus its namespace; find-by-name runs on the linear path
+    (the index path is compared by `c14.probe`) -/
+def tlOf (j : Json) : Except String TL := do
+  pure { ns := ← strOf j "ns", lib := ← libOf j }
+
+def ransJson : RAns → Json
+  | .info h => Json.arr #[jstr h.ns, Json.num (Int.ofNat h.idx)]
+  | .null => Json.arr #[Json.null, Json.num (-1 : Int)]
+  | .oob => Json.arr #[Json.null, Json.num (-7 : Int)]
+
+def opOf (libs : Array TL) (s : Repo) (j : Json) : Except String Op := do
+  let a ← j.getArr?
+  if a.size < 2 then throw "history op: at least 2 fields expected"
+  let k ← a[0]!.getStr?
+  match k with
+  | "g" => pure (.findByGType (← a[1]!.getStr?).toList)
+  | "d" => pure (.findByErrorDomain (← a[1]!.getStr?).toList)
+  | "n" =>
+    if a.size ≠ 3 then throw "history op n: 3 fields expected"
+    pure (.findByName (← a[1]!.getStr?).toList (← a[2]!.getStr?).toList)
+  | "l" =>
+    if a.size ≠ 3 then throw "history op l: 3 fields expected"
+    let i ← a[1]!.getNat?
+    let lazy := (← a[2]!.getNat?) != 0
+    match libs[i]? with
+    | none => throw "history op l: no such typelib"
+    -- a new key goes to the end of the iteration order of the table it is inserted into
+    | some t => pure (.load t lazy (if lazy then s.lazy.length else s.eager.length))
+  | _ => throw s!"history op: unknown kind {k}"
+
+/-- run a history on the state machine from the empty repository: one answer per call, and the
+    namespaces in the two tables after it -/
+def history (j : Json) : Except String Json := do
+  let libs ← (← (← j.getObjVal? "libs").getArr?).mapM tlOf
+  let ops ← (← j.getObjVal? "ops").getArr?
+  let mut s : Repo := {}
+  let mut out : Array Json := #[]
+  for oj in ops do
+    let op ← opOf libs s oj
+    match step s op with
+    | none => out := out.push (Json.str "abort"); break
+    | some (s', a) =>
+      s := s'
+      out := out.push (Json.arr #[ransJson a, jstrs (s'.eager.map (·.ns)), jstrs (s'.lazy.map (·.ns)),
+                                  Json.num (Int.ofNat s'.unknownGTypes.length)])
+  pure (Json.arr out)
+
 def handle (op : String) : Option Handler :=
   match op with
   | "c14.probe" => some probe
+  | "c14.history" => some history
   | "c14.prefix" => some fun j => do
       pure (Json.bool (matchesGTypePrefix (← strOf j "cprefix") (← strOf j "g")))
   | "c14.size" => some fun j => do
